@@ -151,15 +151,15 @@ def adjust_moisture_content(retentate, permeate, moisture_content, ID=None, stri
         retentate_water = retentate.imol[ID]
         dry_mass = F_mass - MW * retentate_water
         key = ('l', ID) if isinstance(retentate, tmo.MultiStream) else ID
-        retentate.imol[key] = water = (dry_mass * mc/(1-mc)) / MW    
-        key = ('l', ID) if isinstance(retentate, tmo.MultiStream) else ID
+        water = (dry_mass * mc/(1-mc)) / MW
+        retentate.imol[key] += water - retentate_water # Other phases may hold moisture too
         permeate.imol[key] -= water - retentate_water
     else:
         retentate_moisture = retentate.imass[ID]
         dry_mass = F_mass - retentate_moisture
         key = ('l', ID) if isinstance(retentate, tmo.MultiStream) else ID
-        retentate.imass[key] = moisture = dry_mass * mc/(1-mc)
-        key = ('l', ID) if isinstance(retentate, tmo.MultiStream) else ID
+        moisture = dry_mass * mc/(1-mc)
+        retentate.imass[key] += moisture - retentate_moisture # Other phases may hold moisture too
         permeate.imass[key] -= moisture - retentate_moisture
     if permeate.imol[key] < 0:
         if strict is None: strict = True
